@@ -2,6 +2,7 @@ package main
 
 import (
 	"fmt"
+	"strings"
 )
 
 // traceRule: the class-trace codec of a transfer app is lossless.
@@ -61,6 +62,14 @@ func (k *K) traceRule(id string, app appDesc) {
 	n1 := "(builtin.len(" + split + ") - const(1))"
 	wantP := "strings.Join(" + split + "[const():" + n1 + "]," + delim + ")"
 	wantB := split + "[" + n1 + "]"
+	// the same decomposition written with LastIndex: raw[:i] and raw[i+len(D):]
+	li := "strings.LastIndex($0," + delim + ")"
+	dl := 1
+	if d, ok := unquoteConst(strings.TrimSuffix(strings.TrimPrefix(delim, "const("), ")")); ok {
+		dl = len(d)
+	}
+	wantP3 := "$0[const():" + li + "]"
+	wantB3 := fmt.Sprintf("$0[(%s + const(%d)):const()]", li, dl)
 	nret := 0
 	for _, rt := range pt.Returns() {
 		t := pt.T.Of(RetVal(rt.Instr, 0))
@@ -76,6 +85,8 @@ func (k *K) traceRule(id string, app appDesc) {
 			k.r.OK(id+"/"+app.name+".parse/whole", "BIND", fnShort(pt), site, "{Path: \"\", BaseClass: raw}: rebuilt path is raw")
 		case p == wantP && b == wantB:
 			k.r.OK(id+"/"+app.name+".parse/split", "BIND", fnShort(pt), site, "{Path: Join(Split(raw,D)[:n-1],D), BaseClass: Split(raw,D)[n-1]}: rebuilt path is raw")
+		case p == wantP3 && (b == wantB3 || b == fmt.Sprintf("$0[(const(%d) + %s):const()]", dl, li)):
+			k.r.OK(id+"/"+app.name+".parse/split", "BIND", fnShort(pt), site, "{Path: raw[:i], BaseClass: raw[i+len(D):]}, i = LastIndex(raw, D): rebuilt path is raw")
 		default:
 			k.r.Undecided(id+"/"+app.name+".parse/lossless", "BIND", fnShort(pt), site, fmt.Sprintf("ParseClassTrace returns {Path: %s, BaseClass: %s}; the checker can show Path + %s + BaseClass == raw only for the whole-string form and for the strings.Split/strings.Join form (Split keeps empty elements): two different class paths may share a trace, i.e. a voucher class, and escrow of one class is released against a voucher of another", clip(p), clip(b), delim))
 		}
